@@ -235,6 +235,8 @@ def build_expr(node, env):
         return terms.ValueWrapper(A(node[1]), allow_parametrize=False)
     if k == "null":
         return terms.NullValue()
+    if k == "emptycrit":
+        return terms.EmptyCriterion()  # the neutral element of & | ^ (public export)
     if k == "lit":
         return terms.LiteralValue(node[1])
     if k == "systime":
